@@ -5,6 +5,7 @@ locations earlier seeded changes already used, so a new one goes elsewhere)."""
 import json, os, subprocess, sys
 root = os.path.dirname(os.path.dirname(os.path.abspath(__file__)))
 suffix = sys.argv[1]
+focus = json.load(open('/tmp/focus.json')) if os.path.exists('/tmp/focus.json') else {}
 ids = sys.argv[2:]
 props = {json.loads(l)['id']: json.loads(l) for l in open(os.path.join(root, 'properties.jsonl'))}
 taken = {}
@@ -38,7 +39,7 @@ Your task: make ONE small, realistic change to the library source (the kind of s
 Earlier experiments already used the following locations/mechanisms for this property; pick a DIFFERENT function and a DIFFERENT mechanism (ideally a different file or a different clause of the property):
 {prev if prev else '  (none)'}
 
-Deliverables, all inside {wt}:
+{('Suggested area for this round (the clauses of the property no earlier experiment has touched): ' + focus[i] + '.' + chr(10) + chr(10)) if i in focus else ''}Deliverables, all inside {wt}:
   1. The source change itself, left applied in the working tree, and additionally saved as a patch: `cd {wt} && git diff > MUTANT.diff` (MUTANT.diff must contain only the library change, not the demonstration; so create the diff before adding untracked files, or make sure untracked demo files are not in it - `git diff` ignores untracked files, which is what we want).
   2. A demonstration that uses only the public API: a new integration test file (for example {wt}/<crate>/tests/<name>.rs; new untracked file, do not edit existing tests) or a small example program, which FAILS (non-zero exit) with your change and PASSES with the change reverted (`git apply -R MUTANT.diff`, run, then `git apply MUTANT.diff` again). Verify both directions yourself.
   3. In your final answer report: the exact demo command (e.g. `cargo test --offline -p lrpar --test my_demo`), which file/function you changed and why it breaks the property, and precisely what an input/sequence needs in order to make the breakage visible (be specific: this description is used to judge how hard the change is to detect).
